@@ -122,17 +122,58 @@ def gen_LatexGates(repo):
             "def latexGates : List (String × LatexKind) := [\n" + body + "\n]\n" + T.FOOTER)
 
 
+def template_chunks(code):
+    """The CONTENT of the string literals of a piece of Rust code, independent of how the strings are put
+    together: every literal (format strings of `format!` / `write!` / `writeln!` with `{{`/`}}` unescaped and the
+    holes `{…}` removed) is cut at the holes, at white space and at double quotes; the result is the sorted
+    list of the distinct non-empty pieces.  Invariant under: splitting / joining literals at those places,
+    `+=` vs `push_str` vs `write!`, hoisting a literal into a variable or a helper function, passing a part of a
+    template as an argument, the order and multiplicity of the literals.  A changed LaTeX command, option
+    (`@C=1em`), bracket or decoration (`!C*+<.7em>…`) changes a piece."""
+    pieces = set()
+    for m in re.finditer(r'r"([^"]*)"|"((?:[^"\\]|\\.)*)"', code):
+        before = code[:m.start()].rstrip()
+        is_fmt = before.endswith("format!(") or re.search(r"\bwrite(ln)?!\(\s*[\w.&]+\s*,$", before) is not None
+        if m.group(1) is not None:
+            s = m.group(1)
+        else:
+            s = m.group(2)
+            s = s.replace('\\\\', '\0').replace('\\"', '"').replace('\\n', '\n').replace('\0', '\\')
+        if is_fmt:
+            out, i = "", 0
+            while i < len(s):
+                if s.startswith("{{", i):
+                    out += "{"; i += 2
+                elif s.startswith("}}", i):
+                    out += "}"; i += 2
+                elif s[i] == "{":
+                    i = s.index("}", i) + 1
+                    out += "\x01"
+                else:
+                    out += s[i]; i += 1
+            s = out
+        for piece in re.split(r'[\s"\x01]+', s):
+            if piece:
+                pieces.add(piece)
+    return sorted(pieces)
+
+
 @T.generator("LatexTemplates")
 def gen_LatexTemplates(repo):
     src = T.strip_rust_comments(T.read(repo, "src/export/latex.rs")).split("#[cfg(test)]")[0]
-    lits = rust_literals(src, templates=True)
+    lits = template_chunks(src)
     ctl = T.strip_rust_comments(T.read(repo, "src/gates/controlled.rs")).split("#[cfg(test)]")[0]
     cblock = impl_block(ctl, r"impl<G>\s+crate::export::Latex\s+for\s+C<G>")
     if cblock is None:
         raise ValueError("LatexTemplates: impl Latex for C<G> not found")
-    clits = [l for l in rust_literals(cblock, templates=True) if l.startswith("\\")]
+    clits = [l for l in template_chunks(cblock) if "\\" in l or l in ("{", "}")]
+    if len(lits) < 20:
+        raise ValueError("LatexTemplates: only %d template pieces found" % len(lits))
     return ("/-! GENERATED by tools/translate.py (tools/gen/c13_latexgates.py) — do not edit.\n"
-            "Every string literal of src/export/latex.rs (non-test part) in source order, format strings with `{}` holes,\n"
-            "and those of `impl Latex for C<G>`. -/\nnamespace Q1t.Gen\n\n"
+            "The CONTENT of the string literals of src/export/latex.rs (non-test part) and of `impl Latex for C<G>`:\n"
+            "every literal (format strings with `{{`/`}}` unescaped and the holes removed) cut at the holes, at white\n"
+            "space and at double quotes; sorted list of the distinct pieces.  Independent of how the emitters put their\n"
+            "strings together (`+=`, `push_str`, `write!`, helper functions, hoisted variables, order, multiplicity). -/\n"
+            "namespace Q1t.Gen\n\n"
             "def latexTemplates : List String := [\n" + ",\n".join("  " + lean_str(l) for l in lits) + "\n]\n\n"
             "def latexCtrlTemplates : List String := [\n" + ",\n".join("  " + lean_str(l) for l in clits) + "\n]\n" + T.FOOTER)
